@@ -90,6 +90,9 @@ impl WordInfoParser {
 //@  before parse_field!( #1
         proof {
             assert(__self.flds.bits == s0 & !0u32);
+            assert(s0 & !0u32 == 0 ==> s0 & !1u32 == 0) by (bit_vector);
+            assert(s0 & !0u32 == 0 ==> s0 & !3u32 == 0) by (bit_vector);
+            assert(s0 & !0u32 == 0 ==> s0 & !15u32 == 0) by (bit_vector);
             assert(s0 & !0u32 == 0 ==> (s0 & 1u32 != 1u32 && s0 & 2u32 != 2u32 && s0 & 4u32 != 4u32 && s0 & 8u32 != 8u32 && s0 & 16u32 != 16u32 && s0 & 32u32 != 32u32 && s0 & 64u32 != 64u32 && s0 & 128u32 != 128u32 && s0 & 256u32 != 256u32 && s0 & 512u32 != 512u32)) by (bit_vector) requires s0 < 1024u32;
             assert((s0 & !0u32) & 1u32 == 1u32 <==> s0 & 1u32 == 1u32) by (bit_vector);
             assert((s0 & !0u32) & !1u32 == s0 & !1u32) by (bit_vector);
@@ -98,6 +101,9 @@ impl WordInfoParser {
 //@  before parse_field!( #2
         proof {
             assert(__self.flds.bits == s0 & !1u32);
+            assert(s0 & !1u32 == 0 ==> s0 & !1u32 == 0) by (bit_vector);
+            assert(s0 & !1u32 == 0 ==> s0 & !3u32 == 0) by (bit_vector);
+            assert(s0 & !1u32 == 0 ==> s0 & !15u32 == 0) by (bit_vector);
             assert(s0 & !1u32 == 0 ==> (s0 & 2u32 != 2u32 && s0 & 4u32 != 4u32 && s0 & 8u32 != 8u32 && s0 & 16u32 != 16u32 && s0 & 32u32 != 32u32 && s0 & 64u32 != 64u32 && s0 & 128u32 != 128u32 && s0 & 256u32 != 256u32 && s0 & 512u32 != 512u32)) by (bit_vector) requires s0 < 1024u32;
             assert((s0 & !1u32) & 2u32 == 2u32 <==> s0 & 2u32 == 2u32) by (bit_vector);
             assert((s0 & !1u32) & !2u32 == s0 & !3u32) by (bit_vector);
@@ -106,6 +112,8 @@ impl WordInfoParser {
 //@  before parse_field!( #3
         proof {
             assert(__self.flds.bits == s0 & !3u32);
+            assert(s0 & !3u32 == 0 ==> s0 & !3u32 == 0) by (bit_vector);
+            assert(s0 & !3u32 == 0 ==> s0 & !15u32 == 0) by (bit_vector);
             assert(s0 & !3u32 == 0 ==> (s0 & 4u32 != 4u32 && s0 & 8u32 != 8u32 && s0 & 16u32 != 16u32 && s0 & 32u32 != 32u32 && s0 & 64u32 != 64u32 && s0 & 128u32 != 128u32 && s0 & 256u32 != 256u32 && s0 & 512u32 != 512u32)) by (bit_vector) requires s0 < 1024u32;
             assert((s0 & !3u32) & 4u32 == 4u32 <==> s0 & 4u32 == 4u32) by (bit_vector);
             assert((s0 & !3u32) & !4u32 == s0 & !7u32) by (bit_vector);
@@ -114,6 +122,7 @@ impl WordInfoParser {
 //@  before parse_field!( #4
         proof {
             assert(__self.flds.bits == s0 & !7u32);
+            assert(s0 & !7u32 == 0 ==> s0 & !15u32 == 0) by (bit_vector);
             assert(s0 & !7u32 == 0 ==> (s0 & 8u32 != 8u32 && s0 & 16u32 != 16u32 && s0 & 32u32 != 32u32 && s0 & 64u32 != 64u32 && s0 & 128u32 != 128u32 && s0 & 256u32 != 256u32 && s0 & 512u32 != 512u32)) by (bit_vector) requires s0 < 1024u32;
             assert((s0 & !7u32) & 8u32 == 8u32 <==> s0 & 8u32 == 8u32) by (bit_vector);
             assert((s0 & !7u32) & !8u32 == s0 & !15u32) by (bit_vector);
@@ -122,6 +131,7 @@ impl WordInfoParser {
 //@  before parse_field!( #5
         proof {
             assert(__self.flds.bits == s0 & !15u32);
+            assert(s0 & !15u32 == 0 ==> s0 & !15u32 == 0) by (bit_vector);
             assert(s0 & !15u32 == 0 ==> (s0 & 16u32 != 16u32 && s0 & 32u32 != 32u32 && s0 & 64u32 != 64u32 && s0 & 128u32 != 128u32 && s0 & 256u32 != 256u32 && s0 & 512u32 != 512u32)) by (bit_vector) requires s0 < 1024u32;
             assert((s0 & !15u32) & 16u32 == 16u32 <==> s0 & 16u32 == 16u32) by (bit_vector);
             assert((s0 & !15u32) & !16u32 == s0 & !31u32) by (bit_vector);
